@@ -679,6 +679,32 @@ func (m *Machine) runVcmd(dir, text string, args []string) Value {
 				}
 			}
 			w.barrierWait = nil
+		case strings.HasPrefix(a, "e:"):
+			// concrete fault (model validation): the command stops here with this exit status;
+			// 255 = its shell is killed by a signal
+			code, _ := strconv.Atoi(a[2:])
+			inv.Ended = true
+			inv.Exit = int64(code)
+			w.event(m, "cmd-end", int64(inv.N), int64(code), "injected")
+			return m.exitError(int64(code))
+		case strings.HasPrefix(a, "h:"):
+			// concrete fault: a partial write of the target
+			p := a[2:]
+			ab := w.absFrom(dir, p)
+			m.crashPoint("cmd-write " + p)
+			if !w.parentExists(ab) {
+				return fail("cannot create " + p + ": no such directory")
+			}
+			inv.Writes = append(inv.Writes, ab)
+			inv.statuses = append(inv.statuses, int64(1))
+			cont := &Content{Origin: "cmd", Inv: inv.N, Target: p, Status: int64(1)}
+			if n := w.node(ab); n != nil && n.Kind == KFile {
+				n.C = cont
+				n.MTime = m.now()
+			} else {
+				w.newFile(ab, cont, m.now())
+			}
+			w.event(m, "cmd-write", int64(inv.N), ab)
 		case strings.HasPrefix(a, "r:"):
 			p := a[2:]
 			ab := w.absFrom(dir, p)
